@@ -181,7 +181,13 @@ func (vc *VC) callHavoc(s *State, spec *FuncSpec, fi *FuncInfo, pre *SpecEnv) {
 	// them (every quantified heap fact is guarded by "allocated"), so they need no havoc; only the modifies
 	// clause is forgotten.
 	fp := &footprintT{arrays: map[string]*Sort{}}
-	_ = fi
+	// a callee whose body writes no heap array at all (transitively) allocates no object: alloc is unchanged
+	noAlloc := spec.Pure && spec.Trusted
+	if fi != nil && !spec.Trusted {
+		if real := vc.footprint(fi); !real.all && len(real.arrays) == 0 {
+			noAlloc = true
+		}
+	}
 	names := map[string]*Sort{}
 	for n, a := range ms {
 		names[n] = a.sort
@@ -228,9 +234,11 @@ func (vc *VC) callHavoc(s *State, spec *FuncSpec, fi *FuncInfo, pre *SpecEnv) {
 			s.heap[n] = nw
 		}
 	}
-	na := Fresh("alloc", SInt)
-	s.assume(Ge(na, s.alloc))
-	s.alloc = na
+	if !noAlloc {
+		na := Fresh("alloc", SInt)
+		s.assume(Ge(na, s.alloc))
+		s.alloc = na
+	}
 	for _, n := range ns {
 		vc.assumeFrame(s, n)
 		if f := vc.rootFact(n, s.heap[n], s.alloc); f != True {
